@@ -3,6 +3,7 @@
   computes, one line per input line, in the same canonical text the Rust harness prints for the real code.
 -/
 import Driver.Codec
+import NarseseModel.PegSem
 import Proofs.RT.Top
 import Proofs.LRT.Bool
 import Proofs.C03.FoldValue
@@ -274,7 +275,7 @@ def exec (op fmt payload : String) : Except String String := do
   | "peg" =>
     -- the published README grammar as reference: kind and tree it derives for the text
     let s ← runRd rdStr payload
-    pure (match Peg.reference Gen.readmeGrammar s with
+    pure (match Peg.referenceS Gen.readmeGrammar s with
       | some v => s!"ok {showLNarsese v}"
       | none => "err")
   | "c01hyp" =>
